@@ -40,6 +40,12 @@ def roundtrip(which):
         nanmask[0, 0] = False
     z = z.copy()
     z[nanmask] = np.nan
+    # the same map in every memory layout a caller may hold it in: C order, Fortran order, a transposed view
+    lay = int(rng.integers(0, 3))
+    if lay == 1:
+        z = np.asfortranarray(z)
+    elif lay == 2:
+        z = np.ascontiguousarray(z.T).T
     dx = float(rng.uniform(0.01, 2.0))
     wvl = float(rng.choice([0.6328, 0.55, 1.064]))
     tmp = tempfile.mkdtemp(prefix='pvc_c14_')
@@ -48,11 +54,11 @@ def roundtrip(which):
             path = os.path.join(tmp, 'map.dat')
             if which == 'interferogram-save-load':
                 I = get('prysm.interferogram.Interferogram')
-                I(z.copy(), dx=dx, wavelength=wvl).save_zygo_dat(path)
+                I(z.copy(order='K'), dx=dx, wavelength=wvl).save_zygo_dat(path)
                 back = I.from_zygo_dat(path)
                 got, gdx, gw = back.data, back.dx, back.wavelength
             else:
-                io.write_zygo_dat(path, z.copy(), dx, wavelength=wvl)
+                io.write_zygo_dat(path, z.copy(order='K'), dx, wavelength=wvl)
                 if which == 'zygo-roundtrip':
                     d = io.read_zygo_dat(path)
                     got = d['phase']
@@ -92,7 +98,7 @@ def roundtrip(which):
                 check('truncated-file-rejected-or-marked-invalid', good)
         else:
             path = os.path.join(tmp, 'map.int')
-            io.write_codev_gridint(z.copy(), path)
+            io.write_codev_gridint(z.copy(order='K'), path)
             if which == 'codev-roundtrip':
                 got, meta = io.read_codev_gridint(path)
                 fin = ~nanmask
